@@ -46,11 +46,12 @@ Profile GetProfile(const std::string& name, bool thorough) {
     p.pm_cmd_fail = 150; p.gen.features |= F_RSP | F_HOSTILE_NAMES;
   } else if (name == "C20") {
     p.pm_cmd_fail = 120; p.pm_tty = 400; p.hostile_output = true; p.gen.features |= F_CONSOLE;
+    p.pm_interrupt = 120;   // output held back for a console command must survive an interrupted build
   } else if (name == "C10") {
     p.twin_deps = true; p.check_convergence = false;
     p.gen.features |= F_DEPFILE | F_DEPSGCC | F_DEPSMSVC | F_GEN_HEADERS | F_RESTAT;
     p.gen.features &= ~(F_REGEN | F_DYNDEP);
-    p.w_del_log = 0; p.w_del_depfile = 0; p.w_regen = 0; p.w_inflate_log = 0; p.w_include_churn = 4; p.w_edit_includes = 3;
+    p.w_del_log = 0; p.w_del_depfile = 0; p.w_regen = 0; p.w_inflate_log = 0; p.w_include_churn = 6; p.w_edit_includes = 3;
     p.pm_cmd_fail = 0; p.pm_interrupt = 0; p.pm_crash = 0; p.pm_editor = 0; p.buggify = false;
   } else if (name == "C11") {
     p.twin_dyndep = true; p.check_convergence = false;
@@ -1144,6 +1145,20 @@ struct Driver {
     std::vector<int> cands;
     for (const Stmt& s : w.sc.stmts) if (s.alive && !s.hidden.empty() && !s.ins.empty() && w.sc.IsSource(s.ins[0]) && !w.sc.FindDyndep(s.ins[0]) && s.ins[0] != "gen.src") cands.push_back(s.id);
     if (cands.empty()) return;
+    // variant: swap one included header for another while neither contributes anything
+    // (both empty), so a restat command leaves its output - and the mtime its deps
+    // record carries - alone while the set of discovered inputs changes
+    if (H(2) == 0) {
+      std::vector<int> pref;
+      // (the choice must not depend on anything a twin world rewrites: deps kind, where restat is declared)
+      for (int id : cands) {
+        const DyndepEntry* de = w.sc.DyndepFor(id);
+        if ((w.sc.stmts[id].restat || (de && de->restat)) && w.sc.stmts[id].hidden.size() >= 2) pref.push_back(id);
+      }
+      if (!pref.empty()) cands = pref;
+      DoIncludeSwap(w.sc.stmts[cands[H((uint32_t)cands.size())]]);
+      return;
+    }
     const Stmt& s = w.sc.stmts[cands[H((uint32_t)cands.size())]];
     std::string primary = s.ins[0];
     // headers that are sources may be empty for a while
@@ -1160,6 +1175,45 @@ struct Driver {
       w.version[h]++;
       w.k.WriteFile(h, w.SourceContent(h), true);
       Note("edit " + h);
+    }
+    DoBuild();
+  }
+
+  void DoIncludeSwap(const Stmt& s) {
+    std::string primary = s.ins[0];
+    if (w.emptied.count(primary)) { w.emptied.erase(primary); w.version[primary]++; w.k.WriteFile(primary, w.SourceContent(primary), true); }
+    auto plain_header = [&](const std::string& h) { return w.sc.IsSource(h) && !w.sc.FindDyndep(h) && h != primary && h != "gen.src"; };
+    for (auto& h : s.hidden) if (plain_header(h) && !w.emptied.count(h)) { w.emptied.insert(h); w.k.WriteFile(h, w.SourceContent(h), true); }
+    Note("include swap on statement " + std::to_string(s.id) + ": its headers are empty");
+    DoBuild();
+    if (dead) return;
+    ContentFn get = [&](const std::string& p, std::string* c) { *c = w.SourceContent(p); return true; };
+    std::vector<std::string> cur = ActiveHidden(w.sc, s, get);
+    int old = w.inc_version[primary], pick = old + 1;
+    std::vector<std::string> added;
+    for (int j = 1; j <= 64; j++) {
+      w.inc_version[primary] = old + j;
+      std::vector<std::string> nxt = ActiveHidden(w.sc, s, get);
+      if (nxt.size() != cur.size() || nxt == cur) continue;
+      bool only_empty = true;
+      std::vector<std::string> add;
+      for (auto& h : nxt) if (std::find(cur.begin(), cur.end(), h) == cur.end()) { add.push_back(h); if (!w.emptied.count(h)) only_empty = false; }
+      for (auto& h : cur) if (std::find(nxt.begin(), nxt.end(), h) == nxt.end() && !w.emptied.count(h)) only_empty = false;
+      if (only_empty) { pick = old + j; added = add; rr.stats.n["include_swap_same_size"]++; break; }
+    }
+    w.inc_version[primary] = pick;
+    w.k.WriteFile(primary, w.SourceContent(primary), true);
+    Note("edit includes of " + primary + (added.empty() ? "" : " (swaps empty headers)"));
+    DoBuild();
+    if (dead) return;
+    // the newly included headers get content
+    if (added.empty()) for (auto& h : s.hidden) if (plain_header(h)) added.push_back(h);
+    for (auto& h : added) {
+      if (!plain_header(h)) continue;
+      w.emptied.erase(h);
+      w.version[h]++;
+      w.k.WriteFile(h, w.SourceContent(h), true);
+      Note("fill " + h);
     }
     DoBuild();
   }
